@@ -97,6 +97,31 @@ type mem struct {
 	camp   *pend // parked campaign
 	chk    *pend // parked CheckLeader delete
 	chkRd  bool  // ... parked after its read
+	// a member that saw another member's record follows it the way leaderLoop does (WatchLeader) until its next own step
+	wcancel context.CancelFunc
+	wdone   chan struct{}
+}
+
+// unfollow ends the watch a member started after its last CheckLeader (and waits for WatchLeader to return: its
+// unsetLeader must not race with a later EnableLeader).
+func (x *mem) unfollow() {
+	if x.wcancel != nil {
+		x.wcancel()
+		<-x.wdone
+		x.wcancel, x.wdone = nil, nil
+	}
+}
+
+// follow: what leaderLoop does after CheckLeader returned somebody else's record.
+func (x *mem) follow(own uint64, l *pdpb.Member, rev int64, wait time.Duration) {
+	if l == nil || l.GetMemberId() == own || x.m.GetLeader().GetMemberId() == own {
+		return
+	}
+	ctx, cancel := context.WithCancel(context.Background())
+	done := make(chan struct{})
+	go func() { defer close(done); x.m.WatchLeader(ctx, l, rev) }()
+	x.wcancel, x.wdone = cancel, done
+	time.Sleep(wait) // the watch starts at the record's revision: its first event is that record
 }
 
 type world struct {
@@ -164,6 +189,10 @@ func (w *world) exec(o op) string {
 	ctx, cancel := context.WithTimeout(context.Background(), 40*time.Second)
 	defer cancel()
 	switch o.K {
+	case "Campaign", "CampaignBegin", "Reset", "CheckLeader", "CheckBegin", "Crash":
+		w.mems[o.M].unfollow()
+	}
+	switch o.K {
 	case "Campaign":
 		x := w.mems[o.M]
 		err := x.m.CampaignLeader(o.TTL)
@@ -204,10 +233,15 @@ func (w *world) exec(o op) string {
 		w.mems[o.M].m.ResetLeader()
 		return "BUnit"
 	case "CheckLeader":
-		l, _, again := w.mems[o.M].m.CheckLeader()
+		l, rev, again := w.mems[o.M].m.CheckLeader()
 		if again {
 			return "BErr"
 		}
+		wait := 30 * time.Millisecond
+		if o.Rd { // fixed scenarios: time for the watch to be set up on a loaded machine, too
+			wait = 300 * time.Millisecond
+		}
+		w.mems[o.M].follow(uint64(100+o.M), l, rev, wait)
 		return w.seen(l.GetMemberId())
 	case "CheckBegin":
 		x := w.mems[o.M]
@@ -552,6 +586,18 @@ func lateKeepAliveAfterResetScenario() []op {
 	}
 }
 
+// a member that follows another member's record (CheckLeader, then the watch of leaderLoop) and one that led before and
+// follows now: every guarded write they attempt is rejected, whatever the watch has seen
+func followerWriteScenario() []op {
+	return []op{
+		{K: "Campaign", M: 0, TTL: 60}, {K: "CheckLeader", M: 1, Rd: true},
+		{K: "Write", M: 1, Kd: 0, V: 5}, {K: "Write", M: 1, Kd: 1, Del: true}, {K: "Write", M: 1, Kd: 2, V: 1}, {K: "Read"},
+		{K: "Reset", M: 0}, {K: "Campaign", M: 1, TTL: 60}, {K: "CheckLeader", M: 0, Rd: true},
+		{K: "Write", M: 0, Kd: 0, V: 6}, {K: "Write", M: 0, Kd: 1, Del: true}, {K: "Write", M: 0, Kd: 2, V: 1}, {K: "Read"},
+		{K: "Write", M: 1, Kd: 0, V: 7}, {K: "IsLeader", M: 0}, {K: "IsLeader", M: 1}, {K: "Read"},
+	}
+}
+
 // the same with member 0 stopped between its read of the record and whatever it does next
 func staleDeleteAfterReadScenario() []op {
 	l := staleDeleteScenario()
@@ -574,6 +620,11 @@ func runCase(e *etcdx.Etcd, admin *clientv3.Client, root string, nmem int, ops [
 	for i := 0; i < nmem; i++ {
 		w.mems = append(w.mems, w.newMember(i))
 	}
+	defer func() {
+		for _, x := range w.mems {
+			x.unfollow()
+		}
+	}()
 	var c caseRec
 	skipEnd := map[int]bool{}
 	step := func(o op) string {
@@ -871,6 +922,7 @@ func main() {
 		add(2, staleDeleteAfterReadScenario())
 		add(2, slowKeepAliveScenario())
 		add(2, lateKeepAliveAfterResetScenario())
+		add(2, followerWriteScenario())
 		master := rng.New(*seed)
 		for k := 0; k < *n; k++ {
 			r := master.Fork(uint64(k))
@@ -881,6 +933,7 @@ func main() {
 		revokeWindowProbe(R)
 		keepAliveAfterCloseProbe(R)
 		tsoInFlightProbe(R)
+		servedAfterResetProbe(R)
 	}
 	results := make([]*caseRec, len(jobs))
 	ch := make(chan job)
